@@ -372,6 +372,71 @@ func init() {
 				break
 			}
 		}
+		// ---- (d) a LONG outage: the backend stays away for longer than the pool's whole reconnect
+		// back-off schedule (about 14 s) while a call waits, then comes back on the same address
+		if !poolDead {
+			away := 17 * time.Second
+			if tier == "thorough" {
+				away = 26 * time.Second
+			}
+			what := fmt.Sprintf("pool of one connection: a set succeeds, the backend goes away (listener closed, connections dropped), a second set is issued, the backend stays away for %v and comes back", away)
+			crumb("C13 "+what, nil)
+			fb, pb := newFake("c13-long-")
+			opts := batched.Opts{BatchSize: 4, BatchDelayMicros: 300}
+			h, _ := memcached.Batched(pb, opts)()
+			rep.Evaluations++
+			distinct["long-outage"] = true
+			rep.Distribution["long-outage"]++
+			ok := true
+			bad := func(sig, msg string) {
+				ok = false
+				rep.Violations = append(rep.Violations, Violation{What: what + ": " + msg, Signature: sig, Replay: map[string]interface{}{"away_s": away.Seconds()}})
+			}
+			if err := h.Set(common.SetRequest{Key: []byte("before"), Data: valueFor([]byte("before"), 1)}); err != nil {
+				bad("pool-long-outage", fmt.Sprintf("the first set returned %v", err))
+			}
+			fb.StopListening()
+			fb.CloseAll()
+			during := make(chan error, 1)
+			go func() { during <- h.Set(common.SetRequest{Key: []byte("during"), Data: valueFor([]byte("during"), 1)}) }()
+			time.Sleep(away)
+			must(fb.Listen(pb))
+			select {
+			case err := <-during:
+				if err != nil {
+					// an error is an outcome; what must not happen is no outcome, or a dead pool
+					rep.Distribution["long-outage:waiting-call-error"]++
+				}
+			case <-time.After(15 * time.Second):
+				bad("pool-long-outage-hang", "the call that waited through the outage got no outcome within 15 s of the backend's return")
+			}
+			after := make(chan error, 1)
+			go func() {
+				hh, _ := memcached.Batched(pb, opts)()
+				var err error
+				for i := 0; i < 40; i++ {
+					if err = hh.Set(common.SetRequest{Key: []byte("after"), Data: valueFor([]byte("after"), 1)}); err == nil {
+						break
+					}
+					time.Sleep(100 * time.Millisecond)
+				}
+				after <- err
+			}()
+			select {
+			case err := <-after:
+				if err != nil {
+					bad("pool-dead-after-outage", fmt.Sprintf("after the backend came back sets keep failing: %v", err))
+				} else if it, found := fb.Lookup("after"); !found || !belongsTo([]byte("after"), it.Value) {
+					bad("pool-long-outage", "a set acknowledged after the outage is not in the backend")
+				}
+			case <-time.After(15 * time.Second):
+				bad("pool-long-outage-hang", "a new set issued after the backend's return got no outcome within 15 s")
+			}
+			if ok {
+				rep.Validated++
+			}
+			fb.StopListening()
+		}
 		rep.Distinct = len(distinct)
 	}
 }
